@@ -23,6 +23,29 @@ def run(tier, seed):
         rep.add('GLOBAL-EFFECT.locked', '%s:%s' % (fn['name'], q), where(fn, line),
                 '%s: `%s(...)` is executed while holding a static mutex' % (fn['name'], q), ok,
                 None if ok else ['no std::lock_guard/unique_lock on a static mutex is alive at this call'])
+    rep.rule('GLOBAL-EFFECT.one-mutex', 'all the sites that change one process-wide resource hold one and the same mutex: two '
+             'save/disable/restore sections under different mutexes do not exclude each other (one thread restores the default '
+             'handler while the other relies on it being off)')
+    byres = {}
+    for fn, q, line, kind, c in sites:
+        if kind == 'mutator':
+            byres.setdefault(statics.RESOURCE.get(q, q), []).append((fn, q, line, statics.held_mutexes(fn, c)))
+    for res, items in sorted(byres.items()):
+        common = None
+        for fn, q, line, held in items:
+            ids = {h[0] for h in held}
+            common = ids if common is None else common & ids
+        ok = bool(common)
+        worst = items[-1]
+        if not ok:
+            # name the site(s) whose mutex differs from the first site's
+            first = {h[0] for h in items[0][3]}
+            diff = [it for it in items if not ({h[0] for h in it[3]} & first)]
+            worst = diff[0] if diff else items[-1]
+        rep.add('GLOBAL-EFFECT.one-mutex', res, where(worst[0], worst[2]),
+                '%d site(s) changing %s all hold the same static mutex' % (len(items), res), ok,
+                None if ok else ['%s (%s) `%s` under %s' % (where(f, l), f['name'], q, sorted('%s declared at %s' % (h[1], h[0]) for h in held) or 'no mutex')
+                                 for f, q, l, held in items])
     rep.rule('GLOBAL-EFFECT.nonreentrant', 'no library function calls a C routine that keeps state in a hidden process-wide static '
              '(strtok, localtime, rand, strerror, ...): such a call is shared mutable state between threads (reentrant *_r variants, '
              'iostreams and <random> engines owned by the caller are fine)')
